@@ -171,7 +171,7 @@ func footer(e *env) {
 	dom, w := g.Dominated(reads[0], isSum)
 	c.Check("R3.footer", "Footer/sum-before-read", reads[0].Node().Pos(), dom,
 		"Sum64 must be taken before the trailer is read: the read passes the 8 checksum bytes through the tee into the digest, so a Sum64 taken afterwards is the CRC of data+trailer and never equals the stored CRC (every intact RDB is rejected)", w...)
-	sumAs, readAs := boundTo(sums[0].Node()), boundTo(reads[0].Node())
+	sumAs, readAs := boundTo(info, sums[0].Node(), isSum), boundTo(info, reads[0].Node(), isRead)
 	if sumAs == nil || readAs == nil || len(sumAs.Lhs) != 1 || len(readAs.Lhs) != 2 {
 		c.Undecidedf("R3.footer", "Footer/mismatch-rejected", foot.Decl.Pos(), "Sum64 / trailer read are not bound to variables")
 		return
@@ -513,19 +513,25 @@ func fieldStores(info *types.Info, body ast.Node) []fstore {
 // bound is the list of variables a statement binds the results of its call to.
 type bound2 struct{ Lhs []ast.Expr }
 
-// boundTo reads `a, b := f()`, `a = f()` and `var a T = f()`.
-func boundTo(n ast.Node) *bound2 {
+// boundTo reads `a, b := f()`, `a = f()` and `var a T = f()`: the statement binds
+// the results of the call itself (possibly converted), not a value that merely
+// contains the call (`x := &T{f: call()}` binds nothing to the result).
+func boundTo(info *types.Info, n ast.Node, isCall func(ast.Node) bool) *bound2 {
+	direct := func(e ast.Expr) bool {
+		call, ok := strip(info, e).(*ast.CallExpr)
+		return ok && isCall(&ast.ExprStmt{X: call})
+	}
 	switch s := n.(type) {
 	case *ast.AssignStmt:
-		if len(s.Rhs) == 1 && (s.Tok == token.ASSIGN || s.Tok == token.DEFINE) {
+		if len(s.Rhs) == 1 && (s.Tok == token.ASSIGN || s.Tok == token.DEFINE) && direct(s.Rhs[0]) {
 			return &bound2{Lhs: s.Lhs}
 		}
 	case *ast.DeclStmt:
 		if gd, ok := s.Decl.(*ast.GenDecl); ok && len(gd.Specs) == 1 {
-			return boundTo(gd.Specs[0])
+			return boundTo(info, gd.Specs[0], isCall)
 		}
 	case *ast.ValueSpec:
-		if len(s.Values) == 1 {
+		if len(s.Values) == 1 && direct(s.Values[0]) {
 			b := &bound2{}
 			for _, nm := range s.Names {
 				b.Lhs = append(b.Lhs, nm)
